@@ -69,6 +69,11 @@ func suiteC16(c *Ctx) {
 		srvProto := protoFactory(p).GetProtocol(srvTrans)
 		srvHandler := &c16Handler{}
 		srv := m3thrift.NewM3Processor(srvHandler)
+		// ... and ONE receive buffer, as a UDP server has it: every datagram is read into the same array; the batch handed
+		// to the handler for the previous datagram is still held then (queued for aggregation) and must not change
+		rxBuf := make([]byte, 1<<21)
+		var heldBatch *m3thrift.MetricBatch
+		heldTok := ""
 		n := c.N(400, 6000)
 		// start the sequence counter near interesting boundaries now and then
 		for i := 0; i < n; i++ {
@@ -165,12 +170,12 @@ func suiteC16(c *Ctx) {
 					default:
 						junk = append(append([]byte(nil), data...), 0x7f, 0x00, 0x33)
 					}
-					srvTrans.Write(junk)
+					srvTrans.Write(rxBuf[:copy(rxBuf, junk)])
 					catch(func() { srv.Process(srvProto, srvProto) })
 					c.Cov.Hit("server-route.unusable-datagram-first")
 				}
 				srvHandler.got = nil
-				srvTrans.Write(data)
+				srvTrans.Write(rxBuf[:copy(rxBuf, data)])
 				var perr error
 				if p2, v := catch(func() { _, e := srv.Process(srvProto, srvProto); perr = e }); p2 {
 					perr = fmt.Errorf("panic: %v", v)
@@ -189,10 +194,22 @@ func suiteC16(c *Ctx) {
 					if gm == nil {
 						gm = []m3thrift.Metric{}
 					}
-					if a, b := tagsTok(srvHandler.got.CommonTags)+" "+metricsTok(sm), tagsTok(got.CommonTags)+" "+metricsTok(gm); a != b {
+					a, b := tagsTok(srvHandler.got.CommonTags)+" "+metricsTok(sm), tagsTok(got.CommonTags)+" "+metricsTok(gm)
+					if a != b {
 						c.Cov.Fail(Failure{Kind: "violated", Clause: "roundtrip", Signature: "c16-server-route-decodes-another-batch", Line: line,
 							Reply: fmt.Sprintf("decoded through a long-lived read transport and processor: %.300s ; decoded from a fresh buffer: %.300s", a, b)})
 					}
+					if heldBatch != nil {
+						hm := heldBatch.Metrics
+						if hm == nil {
+							hm = []m3thrift.Metric{}
+						}
+						if now := tagsTok(heldBatch.CommonTags) + " " + metricsTok(hm); now != heldTok {
+							c.Cov.Fail(Failure{Kind: "violated", Clause: "roundtrip", Signature: "c16-decoded-batch-changes-with-the-next-datagram", Line: line,
+								Reply: fmt.Sprintf("the batch decoded from the PREVIOUS datagram, still held by the handler, read %.300s when it was handed over and reads %.300s after this datagram was received into the same buffer", heldTok, now)})
+						}
+					}
+					heldBatch, heldTok = srvHandler.got, a
 				}
 				c.Cov.Hit("server-route.decoded")
 			}
